@@ -186,6 +186,7 @@ func runFibHistory(c *h.Ctx, id string, r *rand.Rand, prop string) {
 		}
 		c.Violation(key, id, what, d)
 	}
+	wideFaces := r.Intn(5) == 0
 	for step := 0; step < nOps; step++ {
 		name := u.Pick(r)
 		// prefer names related to existing entries
@@ -201,6 +202,11 @@ func runFibHistory(c *h.Ctx, id string, r *rand.Rand, prop string) {
 			}
 		}
 		face := uint64(1 + r.Intn(4))
+		if wideFaces {
+			// face ids are 64-bit numbers handed out for the life of the process: ids far apart, equal
+			// modulo 64 / 256 / 1024 / 2^32, must stay different faces
+			face = []uint64{7, 71, 135, 263, 1031, 7 + 1<<32, 3, 3 + 1<<16}[r.Intn(8)]
+		}
 		cost := uint64([]int{0, 1, 5, 10, 10}[r.Intn(5)])
 		op := fibOp{Name: name.String()}
 		rel := c05Relation(ref, name, m)
